@@ -67,7 +67,10 @@ def h_validate_first(c0: bytes, c1: bytes, target: int, body: bytes) -> bool:
 
 
 # ------------------------------------------------------------------ (c) web mapping
-def body_web_invalid(body, exists, vcf):
+CT_PARAMS = ["", "; charset=utf-8", "; charset=utf-8; component=VEVENT", ";charset=utf-8;x=1;y=2"]
+
+
+def body_web_invalid(body, exists, vcf, nparams):
     name = "c.vcf" if vcf else "a.ics"
     col = mweb.AB if vcf else mweb.CAL
     cal_state = {"a.ics": b"xa"} if (exists and not vcf) else {}
@@ -75,7 +78,8 @@ def body_web_invalid(body, exists, vcf):
     w = mweb.fresh_world(cal_state, ab_state)
     app = mweb.make_app()
     before = Wm.digest(w)
-    r = mweb.call(app, "PUT", col + "/" + name, body=body, content_type="text/vcard" if vcf else "text/calendar")
+    r = mweb.call(app, "PUT", col + "/" + name, body=body,
+                  content_type=("text/vcard" if vcf else "text/calendar") + CT_PARAMS[nparams])
     if body[:1] == b"!":
         ok = r.status_class == "412" and Wm.digest(w) == before
         return (ok, "invalid")
@@ -84,12 +88,12 @@ def body_web_invalid(body, exists, vcf):
     return (ok, "valid")
 
 
-def h_web_invalid(body: bytes, exists: bool, vcf: bool) -> bool:
+def h_web_invalid(body: bytes, exists: bool, vcf: bool, nparams: int) -> bool:
     """
-    pre: 1 <= len(body) <= ctx.b.blen
+    pre: 1 <= len(body) <= ctx.b.blen and 0 <= nparams <= 3
     post: _
     """
-    return run(body_web_invalid, body, exists, vcf)
+    return run(body_web_invalid, body, exists, vcf, nparams)
 
 
 # ------------------------------------------------------------------ (d) the real validators, parsers stubbed
